@@ -862,11 +862,11 @@ def check(prop: str, tier: str) -> int:
     monitor_hits = [(r, msg) for r in runs for (p, msg) in r.mon if p in (prop, "both")]
     other_hits = sum(1 for r in runs for (p, msg) in r.mon if p not in (prop, "both"))
 
-    # kernel-checked sample (vm_compute): scenarios + a random sample of the shorter cases
+    # kernel-checked sample (vm_compute): corpus + scenarios + a random sample of the shorter cases
     sample_n = 40 if tier == "quick" else 300
     idx = [i for i in range(len(cases)) if len(cases[i]) <= 4 * 45]
     rng.shuffle(idx)
-    idx = list(range(n_corpus, n_corpus + n_scen)) + idx[:sample_n]
+    idx = list(range(0, n_corpus + n_scen)) + [i for i in idx if i >= n_corpus + n_scen][:sample_n]
     _t0 = _time.time()
     vm_ok, vm_log = core.coq_eval_cases(prop.lower(), "MemStream", [cases[i] for i in idx], [expected[i] for i in idx])
     stage_t["vm_compute_sample"] = round(_time.time() - _t0, 1)
